@@ -1158,6 +1158,9 @@ func (f *Fault) Decode(d *Decoder) error {
 	}
 	cLog(Yellow, "Vote: %v", vote)
 
+	if vote > 1 {
+		return fmt.Errorf("invalid bool encoding %d", vote)
+	}
 	f.Vote = vote == 1
 
 	if err = f.Key.Decode(d); err != nil {
@@ -1240,6 +1243,9 @@ func (j *Judgement) Decode(d *Decoder) error {
 	}
 	cLog(Yellow, "Vote: %v", vote)
 
+	if vote > 1 {
+		return fmt.Errorf("invalid bool encoding %d", vote)
+	}
 	j.Vote = vote == 1
 
 	if err = j.Index.Decode(d); err != nil {
